@@ -104,7 +104,7 @@ def show(results, reqs, width=230):
         if len(text) > width:
             text = text[:width] + "...(%d chars)" % len(text)
         arg = req[4] if len(req[4]) <= 60 else req[4][:60] + "..."
-        print("  %-22s %-24s %-16s %-28s -> %-11s %s" % (cid, req[1] + "::" + req[2], req[3], arg.replace("\t", "\\t"), status, text))
+        print("  %-22s %-24s %-16s %-28s -> %-11s %s" % (cid, (req[1] + "::" + req[2]).replace("\t", "\\t"), req[3], arg.replace("\t", "\\t").replace("\n", "\\n"), status, text))
 
 
 def modules():
@@ -124,22 +124,22 @@ def requests_for_ops():
     ops["decode"] = [
         ("decode-1", I, "P", "0134127f"), ("decode-2", I, "P", ""), ("decode-3", I, "A", "013412"),
         ("decode-4", I, "A", "01341256"), ("decode-5", I, "A", "023412"), ("decode-6", I, "B", "02010203"),
-        ("decode-7", I, "D", "030142"), ("decode-8", I, "D", "030242"), ("decode-9", I, "S", "15018000030201ff"),
-        ("decode-10", I, "S", "03018000030201"), ("decode-11", I, "CF24", "010203ff"),
+        ("decode-7", I, "D", "030142"), ("decode-8", I, "D", "030242"), ("decode-9", I, "S", "150108010203ff"),
+        ("decode-10", I, "S", "030108010203"), ("decode-11", I, "CF24", "010203ff"),
         ("decode-12", L, "Packet_Scalar_Field", "ff03830282018100aa"),
         ("decode-13", L, "Packet_Enum_Field", "ff00000000000000"), ("decode-14", I, "P", "0G"),
     ]
     ops["decode_full"] = [
         ("full-1", I, "P", "0134127f"), ("full-2", I, "A", "013412"), ("full-3", I, "A", "01341256"),
         ("full-4", I, "B", "02"), ("full-5", I, "C", "0310aabb"), ("full-6", I, "C", "0303"),
-        ("full-7", I, "D", "030109"), ("full-8", I, "S", "15018000030201"), ("full-9", I, "S", "15018000030201ff"),
+        ("full-7", I, "D", "030109"), ("full-8", I, "S", "150108010203"), ("full-9", I, "S", "150108010203ff"),
         ("full-10", I, "CF24", "010203"), ("full-11", I, "CF24", "0102"),
         ("full-12", L, "Packet_Scalar_Field", "ff03830282018100"),
     ]
     ops["decode_mut"] = [
         ("mut-1", I, "P", "0134127f"), ("mut-2", I, "A", "0134"), ("mut-3", I, "A", "013412"),
         ("mut-4", I, "B", "0201"), ("mut-5", I, "D", "0301"), ("mut-6", I, "D", "030177"),
-        ("mut-7", I, "S", "150180000302"), ("mut-8", I, "S", "15018000030201ffee"), ("mut-9", I, "CF24", "010203ffee"),
+        ("mut-7", I, "S", "1501080102"), ("mut-8", I, "S", "150108010203ffee"), ("mut-9", I, "CF24", "010203ffee"),
         ("mut-10", I, "CF24", "01"), ("mut-11", L, "Packet_Scalar_Field", "00"),
         ("mut-12", L, "Packet_Scalar_Field", "ff03830282018100aabb"),
     ]
@@ -164,7 +164,7 @@ def requests_for_ops():
     ops["recode"] = [
         ("rc-1", I, "P", "0134127f"), ("rc-2", I, "A", "013412"), ("rc-3", I, "A", "0134"), ("rc-4", I, "B", "02010203"),
         ("rc-5", I, "C", "0315aabb"), ("rc-6", I, "D", "030109"), ("rc-7", I, "D", "030209"),
-        ("rc-8", I, "S", "15018000030201"), ("rc-9", I, "S", "15018f00030201"), ("rc-10", I, "CF24", "010203"),
+        ("rc-8", I, "S", "150108010203"), ("rc-9", I, "S", "1501f8010203"), ("rc-10", I, "CF24", "010203"),
         ("rc-11", L, "Packet_Scalar_Field", "ff03830282018100"), ("rc-12", L, "Packet_Scalar_Field", "ff"),
     ]
     ops["specialize"] = [
@@ -194,7 +194,7 @@ def requests_for_ops():
     ]
     ops["alloc_decode"] = [
         ("ad-1", I, "P", "01" + "00" * 1000), ("ad-2", I, "B", "02" + "11" * 4096), ("ad-3", I, "A", "013412"),
-        ("ad-4", I, "A", "01"), ("ad-5", I, "S", "15018000030201"), ("ad-6", I, "CF24", "010203"),
+        ("ad-4", I, "A", "01"), ("ad-5", I, "S", "150108010203"), ("ad-6", I, "CF24", "010203"),
         ("ad-7", "m_crash", "Big", "ffffffffffffff3f00"), ("ad-8", "m_crash", "PU", "0300000000"),
         ("ad-9", "m_crash", "Opt", "00"), ("ad-10", I, "D", "030142"), ("ad-11", I, "P", ""),
         ("ad-12", L, "Packet_Scalar_Field", "ff03830282018100"),
@@ -232,7 +232,7 @@ def check_replies(res):
           "decode child with trailing payload bytes -> TrailingBytesError")
     check(pl("decode-5").get("variant") == "ConstraintValueError", "decode A with a=2 -> ConstraintValueError")
     check(res["decode-7"] == ("ok", {"value": {"z": 0x42}, "rest": ""}), "decode grandchild D")
-    check(pl("decode-9") == {"value": {"c": 0x15, "w": 0x801, "f": 0x010203}, "rest": "ff"}, "decode S (enum, 12-bit enum, custom field) with rest")
+    check(pl("decode-9") == {"value": {"c": 0x15, "w": 0x801, "f": 0x030201}, "rest": "ff"}, "decode S (enum, 12-bit enum, custom field) with rest")
     check(pl("decode-10").get("variant") == "EnumValueError", "decode S with bad enum -> EnumValueError")
     check(res["decode-11"] == ("ok", {"value": 0x030201, "rest": "ff"}), "decode sized custom field")
     check(res["decode-12"][0] == "ok" and pl("decode-12")["rest"] == "aa" and pl("decode-12")["value"] == {"a": 127, "c": 283686952306183}, "decode canonical Packet_Scalar_Field")
@@ -308,29 +308,55 @@ def canonical_vectors(binary):
 
 
 def robustness(binary, work):
-    M = "m_crash"
+    H = rh.HARNESS_MODULE
     reqs = [
-        ("rb-ok-1", M, "Opt", "decode", "00"),
-        ("rb-panic", M, "Opt", "decode", "01"),
-        ("rb-stack", M, "R", "decode", "00"),
-        ("rb-ok-2", M, "Opt", "decode", "010203"),
-        ("rb-alloc", M, "PU", "decode", "ffffffffff00"),
-        ("rb-overflow", M, "Big", "decode", "ffffffffffffff7f"),
+        ("rb-ok-1", H, "-", "echo", "hello\tworld"),
+        ("rb-panic", H, "-", "panic", "boom \"quoted\""),
+        ("rb-stack", H, "-", "stack_overflow", ""),
+        ("rb-ok-2", "m_inh", "A", "decode", "013412"),
+        ("rb-abort", H, "-", "abort", ""),
+        ("rb-alloc-small", H, "-", "alloc", "1000000"),
+        ("rb-alloc-refused", H, "-", "alloc", str(65 << 20)),
         ("rb-ok-3", "m_inh", "Color", "enum_default", ""),
-        ("rb-tab", M, "Opt\tx", "decode", "00"),
-        ("rb-newline", M, "Opt", "decode", "00\n00"),
+        ("rb-hang", H, "-", "hang", ""),
+        ("rb-ok-4", H, "-", "echo", "still alive"),
+        ("rb-tab", "m_crash", "Opt\tx", "decode", "00"),
+        ("rb-newline", "m_crash", "Opt", "decode", "00\n00"),
     ]
     t0 = time.monotonic()
-    res = rh.run(binary, reqs, timeout_s=30, env={"PDL_HARNESS_ALLOC_MAX_MB": "64"})
+    res = rh.run(binary, reqs, timeout_s=3, env={"PDL_HARNESS_ALLOC_MAX_MB": "64"})
     print("  (%.2f s)" % (time.monotonic() - t0))
     show(res, reqs)
-    check(res["rb-ok-1"][0] == "ok" and res["rb-ok-2"][0] == "ok" and res["rb-ok-3"][0] == "ok", "cases around crashes are answered")
-    check(res["rb-panic"][0] == "panic" and "advance out of bounds" in res["rb-panic"][1], "panic is caught and reported")
-    check(res["rb-stack"][0] == "abort" and res["rb-stack"][1].get("signal") in ("SIGABRT", "SIGSEGV"), "stack overflow -> abort + restart")
-    check(res["rb-alloc"][0] == "abort" and "memory allocation" in res["rb-alloc"][1].get("stderr", ""), "refused allocation -> abort + restart")
-    dev = "/dev/" in str(binary)
-    check(res["rb-overflow"][0] in (("panic",) if dev else ("panic", "err", "ok", "abort")), "arithmetic overflow (%s profile): %s" % ("dev" if dev else "release", res["rb-overflow"][0]))
+    check(all(res[c][0] == "ok" for c in ("rb-ok-1", "rb-ok-2", "rb-ok-3", "rb-ok-4")) and res["rb-ok-1"][1] == {"echo": "hello\tworld"},
+          "cases around crashes are answered")
+    check(res["rb-panic"] == ("panic", 'boom "quoted"'), "panic is caught; payload is the message")
+    check(res["rb-stack"][0] == "abort" and res["rb-stack"][1].get("signal") in ("SIGABRT", "SIGSEGV")
+          and "overflowed its stack" in res["rb-stack"][1].get("stderr", ""), "stack overflow -> abort + restart")
+    check(res["rb-abort"][0] == "abort" and res["rb-abort"][1].get("signal") == "SIGABRT", "process abort -> abort + restart")
+    check(res["rb-alloc-small"][0] == "ok" and res["rb-alloc-small"][1]["alloc_total"] == 1000000 and res["rb-alloc-small"][1]["alloc_peak"] == 1000000,
+          "counting allocator sees a 1 MB reservation")
+    check(res["rb-alloc-refused"][0] == "abort" and "memory allocation of" in res["rb-alloc-refused"][1].get("stderr", ""),
+          "allocation above the limit is refused -> abort + restart")
+    check(res["rb-hang"][0] == "timeout", "hang -> timeout + restart")
     check(res["rb-tab"][0] == "unsupported" and res["rb-newline"][0] == "unsupported", "requests that would break the line protocol are refused by run()")
+
+    # Witnesses of (possibly already fixed) defects of the generated code: whatever they do,
+    # every one of them must get a reply or an abort/timeout, and the last case must be answered.
+    M = "m_crash"
+    reqs = [
+        ("w-opt", M, "Opt", "decode", "01"),
+        ("w-recursion", M, "R", "decode", "00"),
+        ("w-count40", M, "PU", "decode", "ffffffffff00"),
+        ("w-count64-mul", M, "Big", "decode", "ffffffffffffff7f"),
+        ("w-count64-alloc", M, "Big", "alloc_decode", "ffffffffffffff3f00"),
+        ("w-last", M, "Opt", "decode", "010203"),
+    ]
+    t0 = time.monotonic()
+    res = rh.run(binary, reqs, timeout_s=60, env={"PDL_HARNESS_ALLOC_MAX_MB": "64"})
+    print("  (%.2f s)" % (time.monotonic() - t0))
+    show(res, reqs)
+    check(all(res[r[0]][0] in ("ok", "err", "panic", "abort", "timeout") for r in reqs) and res["w-last"][0] == "ok",
+          "defect witnesses: every case accounted for (%s)" % ", ".join("%s=%s" % (r[0], res[r[0]][0]) for r in reqs))
 
     # a driver that hangs: use a fake driver script (first request answered, second never)
     fake = work / "fake_driver.py"
